@@ -1,8 +1,9 @@
+use core::fmt;
 use core::marker::PhantomData;
 use core::mem;
 use core::mem::ManuallyDrop;
 use core::ops::Deref;
-use core::ptr::NonNull;
+use core::ptr::{self, NonNull};
 
 use super::Arc;
 
@@ -21,9 +22,25 @@ use super::Arc;
 ///
 /// `ArcBorrow` lets us deal with borrows of known-refcounted objects
 /// without needing to worry about where the `Arc<T>` is.
-#[derive(Debug, Eq, PartialEq)]
 #[repr(transparent)]
 pub struct ArcBorrow<'a, T: ?Sized + 'a>(pub(crate) NonNull<T>, pub(crate) PhantomData<&'a T>);
+
+// Like `&Arc<T>`, an `ArcBorrow` compares and formats as the value it points to (borrows of
+// the same allocation are equal without consulting the value, as for `Arc`).
+impl<'a, T: ?Sized + PartialEq> PartialEq for ArcBorrow<'a, T> {
+    fn eq(&self, other: &Self) -> bool {
+        ptr::addr_eq(self.0.as_ptr(), other.0.as_ptr())
+            || unsafe { *self.0.as_ptr() == *other.0.as_ptr() }
+    }
+}
+
+impl<'a, T: ?Sized + Eq> Eq for ArcBorrow<'a, T> {}
+
+impl<'a, T: ?Sized + fmt::Debug> fmt::Debug for ArcBorrow<'a, T> {
+    fn fmt(&self, f: &mut fmt::Formatter) -> fmt::Result {
+        fmt::Debug::fmt(unsafe { &*self.0.as_ptr() }, f)
+    }
+}
 
 unsafe impl<'a, T: ?Sized + Sync + Send> Send for ArcBorrow<'a, T> {}
 unsafe impl<'a, T: ?Sized + Sync + Send> Sync for ArcBorrow<'a, T> {}
